@@ -13,7 +13,7 @@ that an operation on well-formed storage yields the well-formed storage of the n
 All statements are for every element type, every grid (any number of rows / columns incl. zero,
 any cell lengths), every index expression and every program — no bounds.
 -/
-import TFVerif.Proofs.RaggedCanon
+import TFVerif.Proofs.RaggedImpl
 
 namespace TFVerif.C05
 
@@ -86,6 +86,13 @@ theorem raises_iff (n : Nat) :
         cases h2 : normIndices n is with
         | none => simp [hn, ← ih, h2]
         | some js => simp [hn, ← ih, h2]
+
+/-- `_batched_arange` as coded (cumsum pointer, `repeat_interleave`, global arange minus
+    `ptr[batch]`) computes what its docstring says — the gather idiom every primitive is built on. -/
+theorem batched_arange_code_eq_doc (count : List Nat) : batchedArangeImpl count = batchedArange count :=
+  batchedArangeImpl_eq count
+
+example : batchedArangeImpl [3, 0, 2] = [(0, 0), (0, 1), (0, 2), (2, 0), (2, 1)] := by decide
 
 /-! ### MultiNestedTensor -/
 
